@@ -369,6 +369,11 @@ def path_struct_of(net, path):
 def model_compare(ctx, drv, hist, obs):
     pool = [gen.Net.from_json(j) for _, j in hist["pool"]]
     cfg0 = hist["cfg"]
+    if any(o is not None and o["searches"] and not (o.get("searched_con") and "error" not in o["searched_con"])
+           for o in obs):
+        # the oracle's answer could not be observed (private hooks renamed?): nothing to feed the model
+        ctx.count("model_compare_skipped:search-result-unobservable")
+        return None
     # one label map for the whole pool (labels are shared between the variants)
     scores = set()
     for o in obs:
